@@ -1952,8 +1952,225 @@ def desugar_state_singletons(tree, known):
     return notes
 
 
+def lower_modern_syntax(tree):
+    """Constructs the engine has no native model for are written in the
+    older idiom they abbreviate (exactly equivalent forms only):
+
+    * ``match S: case 'a': .. case 'b' | 'c': .. case None: .. case _: ..``
+      with value / or / singleton / wildcard / capture patterns (and guards)
+      -> if / elif / else on ``S == 'a'``, ``S in ('b', 'c')``, ``S is None``
+      (S is evaluated once: a plain name, attribute or argument-free method
+      call is repeated, anything else goes through a temporary);
+    * ``if (n := E) <op> ..`` with the binding in the first evaluated
+      position -> ``n = E`` in front of the statement;
+    * ``with contextlib.suppress(E..): B`` -> ``try: B except (E..): pass``;
+      ``with contextlib.nullcontext(): B`` -> ``B``.
+    """
+    notes = []
+    counter = [0]
+
+    def pure_subject(e):
+        if isinstance(e, (ast.Name, ast.Constant)):
+            return True
+        if isinstance(e, ast.Attribute):
+            return pure_subject(e.value)
+        if isinstance(e, ast.Subscript):
+            return pure_subject(e.value) and isinstance(
+                e.slice, (ast.Constant, ast.Name, ast.UnaryOp))
+        if isinstance(e, ast.Call) and not e.args and not e.keywords and \
+                isinstance(e.func, ast.Attribute):
+            return pure_subject(e.func.value)
+        return False
+
+    def value_of(pat):
+        if isinstance(pat, ast.MatchValue):
+            return [pat.value]
+        if isinstance(pat, ast.MatchOr):
+            out = []
+            for q in pat.patterns:
+                v = value_of(q)
+                if v is None:
+                    return None
+                out += v
+            return out
+        return None
+
+    def lower_match(st):
+        subj = st.subject
+        pre = []
+        if not pure_subject(subj):
+            counter[0] += 1
+            tmp = f'__match{counter[0]}'
+            pre.append(ast.Assign(targets=[ast.Name(id=tmp,
+                                                    ctx=ast.Store())],
+                                  value=subj))
+            subj = ast.Name(id=tmp, ctx=ast.Load())
+        arms = []
+        for case in st.cases:
+            pat = case.pattern
+            test = None
+            bind = []
+            vals = value_of(pat)
+            if vals is not None:
+                if len(vals) == 1:
+                    test = ast.Compare(left=clone(subj), ops=[ast.Eq()],
+                                       comparators=[vals[0]])
+                else:
+                    test = ast.Compare(left=clone(subj), ops=[ast.In()],
+                                       comparators=[ast.Tuple(
+                                           elts=vals, ctx=ast.Load())])
+            elif isinstance(pat, ast.MatchSingleton):
+                test = ast.Compare(left=clone(subj), ops=[ast.Is()],
+                                   comparators=[ast.Constant(
+                                       value=pat.value)])
+            elif isinstance(pat, ast.MatchAs) and pat.pattern is None:
+                test = ast.Constant(value=True)
+                if pat.name is not None:
+                    bind.append(ast.Assign(
+                        targets=[ast.Name(id=pat.name, ctx=ast.Store())],
+                        value=clone(subj)))
+            else:
+                return None
+            if case.guard is not None:
+                if bind:
+                    return None  # the guard may read the capture
+                test = case.guard if isinstance(
+                    test, ast.Constant) else ast.BoolOp(
+                        op=ast.And(), values=[test, case.guard])
+            arms.append((test, bind + case.body))
+        # build the chain from the end
+        chain = []
+        for test, body in reversed(arms):
+            if isinstance(test, ast.Constant) and test.value is True:
+                chain = body
+            else:
+                chain = [ast.If(test=test, body=body, orelse=chain)]
+        out = pre + (chain or [ast.Pass()])
+        for x in out:
+            ast.copy_location(x, st)
+            for y in ast.walk(x):
+                if not hasattr(y, 'lineno'):
+                    ast.copy_location(y, st)
+        return out
+
+    def first_position_walrus(test):
+        """NamedExprs of ``test`` that are evaluated unconditionally and
+        before anything that could read their target."""
+        out = []
+
+        def rec(e, uncond):
+            if isinstance(e, ast.NamedExpr):
+                if uncond and isinstance(e.target, ast.Name):
+                    out.append(e)
+                rec(e.value, uncond)
+                return
+            if isinstance(e, ast.BoolOp):
+                for k, v in enumerate(e.values):
+                    rec(v, uncond and k == 0)
+                return
+            if isinstance(e, ast.IfExp):
+                rec(e.test, uncond)
+                return
+            if isinstance(e, (ast.Lambda, ast.ListComp, ast.SetComp,
+                              ast.DictComp, ast.GeneratorExp)):
+                return
+            for c in ast.iter_child_nodes(e):
+                rec(c, uncond)
+
+        rec(test, True)
+        return out
+
+    class W(ast.NodeTransformer):
+
+        def __init__(self_, targets):
+            self_.targets = targets
+
+        def visit_NamedExpr(self_, n):
+            n = self_.generic_visit(n)
+            if n in self_.targets or any(n is t for t in self_.targets):
+                return ast.copy_location(ast.Name(id=n.target.id,
+                                                  ctx=ast.Load()), n)
+            return n
+
+    def lower_block(blk):
+        i = 0
+        while i < len(blk):
+            st = blk[i]
+            if isinstance(st, ast.Match):
+                r = lower_match(st)
+                if r is not None:
+                    blk[i:i + 1] = r
+                    notes.append(f'match statement at line {st.lineno} '
+                                 'written as an if/elif chain')
+                    continue
+            if isinstance(st, ast.If):
+                ws = first_position_walrus(st.test)
+                # only when evaluation order is obviously unchanged: the
+                # binding is the left-most operand of the test
+                if ws:
+                    left = st.test
+                    while isinstance(left, (ast.Compare, ast.BoolOp,
+                                            ast.UnaryOp, ast.BinOp)):
+                        left = left.left if isinstance(
+                            left, (ast.Compare, ast.BinOp)) else (
+                                left.values[0] if isinstance(
+                                    left, ast.BoolOp) else left.operand)
+                    if left is ws[0]:
+                        w = ws[0]
+                        a = ast.Assign(targets=[ast.Name(id=w.target.id,
+                                                         ctx=ast.Store())],
+                                       value=w.value)
+                        ast.copy_location(a, st)
+                        ast.copy_location(a.targets[0], st)
+                        st.test = W([w]).visit(st.test)
+                        blk.insert(i, a)
+                        notes.append(f'walrus at line {st.lineno} hoisted')
+                        continue
+            if isinstance(st, ast.With) and len(st.items) == 1 and \
+                    st.items[0].optional_vars is None and isinstance(
+                        st.items[0].context_expr, ast.Call):
+                nm = ast.unparse(st.items[0].context_expr.func)
+                c = st.items[0].context_expr
+                if nm in ('contextlib.suppress', 'suppress') and c.args \
+                        and not c.keywords:
+                    ty = c.args[0] if len(c.args) == 1 else ast.Tuple(
+                        elts=list(c.args), ctx=ast.Load())
+                    t = ast.Try(body=st.body, handlers=[ast.ExceptHandler(
+                        type=ty, name=None, body=[ast.Pass()])], orelse=[],
+                                finalbody=[])
+                    ast.copy_location(t, st)
+                    for y in ast.walk(t):
+                        if not hasattr(y, 'lineno'):
+                            ast.copy_location(y, st)
+                    blk[i] = t
+                    notes.append(f'contextlib.suppress at line {st.lineno} '
+                                 'written as try/except')
+                    continue
+                if nm in ('contextlib.nullcontext', 'nullcontext') and \
+                        not c.args and not c.keywords:
+                    blk[i:i + 1] = st.body
+                    continue
+            for fld in ('body', 'orelse', 'finalbody'):
+                b = getattr(st, fld, None)
+                if isinstance(b, list) and b and isinstance(b[0], ast.stmt):
+                    lower_block(b)
+            for h in getattr(st, 'handlers', []) or []:
+                lower_block(h.body)
+            for cs in getattr(st, 'cases', []) or []:
+                lower_block(cs.body)
+            i += 1
+
+    lower_block(tree.body)
+    ast.fix_missing_locations(tree)
+    return notes
+
+
 def inline_new_helpers(tree, modname):
     notes0 = []
+    try:
+        notes0 += lower_modern_syntax(tree)
+    except RecursionError:
+        pass
     try:
         notes0 += desugar_state_singletons(tree, None)
     except RecursionError:
